@@ -2492,6 +2492,18 @@ impl<'a> Model<'a> {
         height: i32,
         value: &str,
     ) -> Result<(), String> {
+        if width < 1 || height < 1 {
+            return Err(format!(
+                "Invalid width='{width}' or height='{height}' for an array formula"
+            ));
+        }
+        if !(1..=LAST_ROW).contains(&row)
+            || !(1..=LAST_COLUMN).contains(&column)
+            || height > LAST_ROW - row + 1
+            || width > LAST_COLUMN - column + 1
+        {
+            return Err("The array formula does not fit in the sheet".to_string());
+        }
         // No cell of the block may belong to another array formula
         for r in row..row + height {
             for c in column..column + width {
